@@ -23,6 +23,8 @@ def jobs(tier):
             heavy = is_heavy(e)
             if heavy and n > (4 if tier == "quick" else 8):
                 continue
+            if heavy and n > 4 and "pow" in e.tags and ("ss" in e.tags or "c=-3" in e.tags):
+                continue          # symbolic base ** 8-bit secret exponent: 256 paths of degree-255 terms (stated bound: n = 4)
             b = bound
             if heavy and "pow" in e.tags and tier == "quick":
                 b = 1 << 10          # symbolic base with a secret exponent: degree-15 terms, keep the quick tier quick
